@@ -5,7 +5,7 @@
    openfile_depth) and the reference's budget (spec_max_links) are the
    constants goextract read from those files on this run. *)
 From Coq Require Import Sorting.Sorted.
-From Apko Require Import Base.Prelude Model.MemFS Spec.FsSpec Model.DirFS Model.SubFS Proofs.FsSub Proofs.FsDir Proofs.FsProofs Proofs.FsLaws Proofs.FsWf Proofs.FsAgree Proofs.FsReach Proofs.FsTame Proofs.FsTameOps Proofs.FsTameReach Proofs.FsWeights Proofs.FsDirRooted Generated.FsConsts.
+From Apko Require Import Base.Prelude Model.MemFS Spec.FsSpec Model.DirFS Model.SubFS Model.TarEntry Proofs.FsSub Proofs.FsTarEntry Proofs.FsDir Proofs.FsProofs Proofs.FsLaws Proofs.FsWf Proofs.FsAgree Proofs.FsReach Proofs.FsTame Proofs.FsTameOps Proofs.FsTameReach Proofs.FsWeights Proofs.FsDirRooted Generated.FsConsts.
 Open Scope string_scope. Open Scope list_scope.
 
 (* the limits the theorems below are about: both files say the same, and it is
@@ -679,6 +679,85 @@ Proof.
   intro b; destruct b; vm_compute; repeat split; try reflexivity; intro H; discriminate H.
 Qed.
 Print Assumptions c17_subfs_symlink_link_unjoined_refuted.
+
+(* ---- the tar-entry channel of pkg/tarfs -----------------------------------------------------------
+   [tstep] (Model/TarEntry.v): the tree model of tarfs plus, per inode, the package's
+   tar entry (WriteHeader) and, per handle, the opener's file of a read-only open of a
+   file that is not loaded yet.  It extends the tree model conservatively: with no
+   entry and no opener file the step IS the tree model's step (so everything above
+   applies to tarfs as it is used without packages). *)
+Theorem c17_tarentry_conservative : forall s o,
+  tstep (mkT s [] []) (TOp o) = (mkT (fst (model_step TarFS s o)) [] [], snd (model_step TarFS s o)).
+Proof. exact tstep_conservative. Qed.
+Print Assumptions c17_tarentry_conservative.
+
+(* reads return the bytes last written, the write being a package's WriteHeader: under
+   a fresh name in the root directory the file reads as the entry's bytes and stats
+   with the entry's size and mode — in EVERY state (whatever entries, handles and
+   opener files exist) *)
+Theorem c17_tarentry_read_after_writeheader : forall ts nm c perm,
+  let s := t_base ts in
+  clean_name nm = true -> is_dir (heap s) 0 = true -> lookup nm (n_children (get (heap s) 0)) = None -> c <> [] ->
+  let ts' := fst (tstep ts (TWriteHeader [nm] c perm)) in
+  snd (tstep ts (TWriteHeader [nm] c perm)) = ONum 1%Z /\
+  snd (tstep ts' (TOp (ReadFile [nm]))) = OBytes c /\
+  snd (tstep ts' (TOp (Stat [nm]))) = OInfo KReg perm (N.of_nat (List.length c)) 0%Z 0%Z None.
+Proof. exact read_after_writeheader. Qed.
+Print Assumptions c17_tarentry_read_after_writeheader.
+
+(* reads of a package-backed file before and after truncation, overwrite (also with
+   nothing), a write through a handle, a hard link, and removal of the name under an
+   open handle; every result is the reference's on the plain filesystem the state
+   stands for ([flat]).  Replayed on the real tarfs: stage tarentry. *)
+Definition c17_tarentry_demo : list top :=
+  [ TWriteHeader ["f"] [104; 105]%N 420%N; TOp (Stat ["f"]); TOp (ReadFile ["f"]);
+    TOp (OpenFile ["f"] (mkFl ARdWr false false false false) 0%N); TOp (Read 0 1); TOp (Write 0 [88]%N); TOp (ReadFile ["f"]);
+    TOp (Link ["f"] ["g"]); TOp (WriteFile ["g"] [] 420%N); TOp (ReadFile ["f"]); TOp (Stat ["f"]);
+    TWriteHeader ["p"] [1; 2; 3]%N 420%N; TOp (OpenFile ["p"] (mkFl AWr false false false true) 0%N); TOp (ReadFile ["p"]); TOp (Stat ["p"]);
+    TWriteHeader ["p"] [1; 2; 3]%N 420%N; TOp (ReadFile ["p"]);
+    TWriteHeader ["q"] [7; 8]%N 420%N; TOp (OpenFile ["q"] (mkFl ARd false false false false) 0%N); TOp (Remove ["q"]); TOp (Read 2 5); TOp (Stat ["q"]) ].
+Definition out_eqb_simple (a b : out) : bool :=
+  match a, b with
+  | OOk, OOk => true
+  | OErr x, OErr y => eclass_eqb x y
+  | OBytes x, OBytes y => list_eqb N.eqb x y
+  | ONum x, ONum y => Z.eqb x y
+  | OInfo k p sz u g t, OInfo k' p' sz' u' g' t' => kind_eqb k k' && N.eqb p p' && N.eqb sz sz' && Z.eqb u u' && Z.eqb g g'
+  | _, _ => false
+  end.
+Fixpoint tar_agrees (ts : tst) (ops : list top) : bool :=
+  match ops with
+  | [] => true
+  | TOp o :: ops' =>
+      E TarFS (flat ts) o && out_eqb_simple (snd (spec_step (flat ts) o)) (snd (tstep ts (TOp o))) &&
+      tar_agrees (fst (tstep ts (TOp o))) ops'
+  | o :: ops' => tar_agrees (fst (tstep ts o)) ops'
+  end.
+Example c17_tarentry_demo_reads :
+  snd (trun tinit c17_tarentry_demo) =
+    [ ONum 1%Z; OInfo KReg 420%N 2%N 0%Z 0%Z None; OBytes [104; 105]%N; OOk; OBytes [104]%N; ONum 1%Z; OBytes [104; 88]%N;
+      OOk; OOk; OBytes []%N; OInfo KReg 420%N 0%N 0%Z 0%Z None;
+      ONum 1%Z; OOk; OBytes []%N; OInfo KReg 420%N 0%N 0%Z 0%Z None; ONum 0%Z; OBytes []%N;
+      ONum 1%Z; OOk; OOk; OBytes [7; 8]%N; OErr ENotExist ] /\
+  tar_agrees tinit c17_tarentry_demo = true.
+Proof. vm_compute. split; reflexivity. Qed.
+
+(* the channel's own corner (finding C17-F24; replayed: tarentry scenarios
+   readonly-handle-stale-after-write, readonly-trunc-handle, readonly-handle-no-seek):
+   a read-only handle on a file that is not loaded yet is the opener's file.  After
+   WriteFile f "new" it still reads the package's bytes where the reference reads
+   the new ones; Seek on it fails where the reference seeks. *)
+Theorem c17_tarentry_readonly_handle_refuted :
+  let ts := fst (trun tinit [TWriteHeader ["f"] [104; 105]%N 420%N; TOp (OpenFile ["f"] (mkFl ARd false false false false) 0%N);
+                             TOp (WriteFile ["f"] [110; 101; 119]%N 420%N)]) in
+  snd (tstep ts (TOp (Read 0 5))) = OBytes [104; 105]%N /\
+  snd (spec_step (flat ts) (Read 0 5)) = OBytes [110; 101; 119]%N /\
+  E TarFS (flat ts) (Read 0 5) = true /\
+  snd (tstep ts (TOp (ReadFile ["f"]))) = OBytes [110; 101; 119]%N /\
+  snd (tstep ts (TOp (Seek 0 0%Z 0))) = OErr EOther /\
+  snd (spec_step (flat ts) (Seek 0 0%Z 0)) = ONum 0%Z.
+Proof. vm_compute. repeat split; reflexivity. Qed.
+Print Assumptions c17_tarentry_readonly_handle_refuted.
 
 Definition fl_rdwr := mkFl ARdWr false false false false.
 Definition fl_rd := mkFl ARd false false false false.
